@@ -1398,6 +1398,48 @@ func ruleCRASH6(c *Ctx) {
 	}
 	c.check(have["EmitBase"] && have["EmitLexer"] && have["EmitParser"] && have["ParseLox"] && have["ParseGo"] && have["AssignActions"], rule, "codegen.Generate/conjunction", p.Pos(gen.Pos()),
 		"Generate succeeds only if every stage, including the three emitters, succeeded: "+strings.Join(conj, " && "), "Generate's result is not the conjunction of all stages: success could be reported with missing output ("+strings.Join(conj, " && ")+")")
+	// ... and there is no other way to report success: every return of Generate that is not the
+	// constant false is the conjunction itself, or follows the fail-fast loop over all stages
+	var stageLoop *ast.RangeStmt
+	ast.Inspect(gen.Body, func(n ast.Node) bool {
+		if rs, ok := n.(*ast.RangeStmt); ok && stageLoop == nil {
+			if _, isLit := ast.Unparen(resolveLocalIn(info2, gen, rs.X)).(*ast.CompositeLit); isLit {
+				stageLoop = rs
+			}
+		}
+		return true
+	})
+	genPar := parents(gen)
+	inspectNoLit(gen.Body, func(n ast.Node) bool {
+		rs, ok := n.(*ast.ReturnStmt)
+		if !ok || len(rs.Results) != 1 {
+			return true
+		}
+		if tv, ok := info2.Types[rs.Results[0]]; ok && tv.Value != nil && tv.Value.String() == "false" {
+			return true
+		}
+		okRet := false
+		why := ""
+		if cj := conjuncts(rs.Results[0]); len(cj) > 1 {
+			names := map[string]bool{}
+			for _, e := range cj {
+				if call, ok := ast.Unparen(e).(*ast.CallExpr); ok {
+					if fn := calleeFunc(info2, call); fn != nil {
+						names[fn.Name()] = true
+					}
+				}
+			}
+			okRet = names["EmitBase"] && names["EmitLexer"] && names["EmitParser"]
+			why = "its conjunction does not contain all three emit stages"
+		} else if stageLoop != nil && rs.Pos() > stageLoop.End() && genPar[rs] == genPar[stageLoop] {
+			okRet = true
+		} else {
+			why = "it is reached without running the stages (e.g. an up-to-date short cut): lox would exit 0 although output files are missing or stale"
+		}
+		c.check(okRet, rule, "codegen.Generate/success-only-through-all-stages", p.Pos(rs.Pos()),
+			"this return reports success only as the conjunction of all stages", "Generate can return `"+exprString(rs.Results[0])+"` here and "+why)
+		return true
+	})
 	// every `return false` of a stage follows a diagnostic
 	for _, st := range conj {
 		spk, sfd := p.FuncDecl("internal/codegen", "context."+st)
